@@ -84,7 +84,7 @@ Theorem retry_same_content : forall st sid x,
   forall p, should_report (tab st) x p = should_report (tab st') (mkCtx (sub_after_fail x) false (x_nseen x) (x_nseen_ev x) (x_now x) [] []) p.
 Proof.
   intros st sid x Hf Hc. unfold step. cbn [step_gen]. rewrite Hf. cbn [fst].
-  unfold report_complete. rewrite Hc. cbn [tab subs]. split; [reflexivity|]. split; [reflexivity|].
+  unfold report_complete. rewrite Hc. rewrite andb_false_r. cbn [tab subs]. split; [reflexivity|]. split; [reflexivity|].
   intros p. unfold should_report, unprimed, sub_after_fail, with_core. cbn [x_sub s_rep_at s_seen]. reflexivity.
 Qed.
 
@@ -203,13 +203,13 @@ Proof.
   repeat split. unfold visit. destruct (mem_path p (x_vis x)); reflexivity.
 Qed.
 
-Lemma report_complete_tinv : forall st sid s' keep,
-  TInv st -> s_since s' = expiry_anchor s' -> TInv (report_complete st sid s' keep).
+Lemma report_complete_tinv : forall slot st sid s' keep,
+  TInv st -> s_since s' = expiry_anchor s' -> TInv (report_complete slot st sid s' keep).
 Proof.
-  intros st sid s' keep [T1 T2] Hs.
+  intros slot st sid s' keep [T1 T2] Hs.
   assert (Hc : forall y, In y (remove_ctx sid (ctxs st)) -> s_since (x_sub y) = expiry_anchor (x_sub y) /\ x_now y < IMAX).
   { intros y Hy. apply T2. eapply remove_ctx_In. exact Hy. }
-  unfold report_complete. destruct (cancelled st); [constructor; cbn [subs ctxs]; assumption|].
+  unfold report_complete. destruct (owns_slot slot st sid && cancelled st); [constructor; cbn [subs ctxs]; assumption|].
   destruct keep; [|constructor; cbn [subs ctxs]; assumption].
   constructor; cbn [subs ctxs]; [|assumption].
   intros s Hin. apply in_app_or in Hin. destruct Hin as [Hin|[Heq|[]]]; [apply T1; exact Hin|subst; exact Hs].
